@@ -43,8 +43,11 @@ LEVEL_TEXT = ("Coq theorems over the reals about the executable Gallina model (c
               "p+1 points starting at span-p and every control point with a non-zero Cox-de Boor basis function at the parameter is among them. "
               "the winding test on every strictly convex polygon (either orientation) and every triangle: for points off the boundary wn_poly is true "
               "exactly for the interior points, the count being +1/-1/0 (round 2, Proofs/WindingConvex.v; axis-parallel rectangles additionally with the "
-              "half-open boundary rule). BOUNDED/PARTIAL: non-convex simple "
-              "polygons and the skew status for non-meeting 3-D rays are checked by the exact Fraction oracles on "
+              "half-open boundary rule). 3-D non-parallel rays (round 2, Proofs/RaySkew.v): the returned parameters are the feet of the common perpendicular "
+              "(unique, distance-minimising), status SKEW iff the line distance |triple product|/|d1 x d2| is >= tol, INTERSECT iff it is < tol, and in "
+              "exact terms the lines meet iff the triple product vanishes (with the literal tol = 0 the code always answers SKEW: refuted/recorded). "
+              "BOUNDED/PARTIAL: non-convex simple "
+              "polygons are checked by the exact Fraction oracles on "
               "every run, not proved.")
 LEVEL_NOTE = ("Trusted: Coq 8.16.1 kernel incl. vm_compute; standard-library real-number axioms as printed by Print Assumptions; the model is tied "
               "to /repo by the sampled correspondence check; float predicates are compared on integer/dyadic inputs where they are exact (the property's own "
